@@ -23,7 +23,7 @@ Qed.
 Lemma scan_line l r : nolf l = true -> lines (l ++ LF :: r) = l :: lines r.
 Proof.
   intros H. unfold lines. rewrite scan_app_nolf by exact H.
-  cbn [scan]. rewrite N.eqb_refl. rewrite app_nil_r, rev_involutive. reflexivity.
+  cbn [scan]. rewrite N.eqb_refl. rewrite frev_rev, app_nil_r, rev_involutive. reflexivity.
 Qed.
 
 Lemma scan_last l : nolf l = true -> lines l = match l with [] => [] | _ => [l] end.
@@ -33,7 +33,7 @@ Proof.
   destruct l as [|c l']; [reflexivity|].
   destruct (rev (c :: l')) eqn:E.
   - apply (f_equal (@length _)) in E. rewrite rev_length in E. discriminate.
-  - rewrite <- E, rev_involutive. reflexivity.
+  - rewrite <- E, frev_rev, rev_involutive. reflexivity.
 Qed.
 
 (* lines of a file built with join_lf: the lines themselves; an empty unterminated last
@@ -85,8 +85,9 @@ Lemma asp_CR : asp CR = true. Proof. reflexivity. Qed.
 
 Lemma trim_drop_cr l : trim (drop_cr l) = trim l.
 Proof.
-  unfold drop_cr. destruct (rev l) as [|c r] eqn:E; [reflexivity|].
+  unfold drop_cr. rewrite !frev_rev. destruct (rev l) as [|c r] eqn:E; [reflexivity|].
   destruct (N.eqb_spec c CR) as [->|]; [|reflexivity].
+  rewrite frev_rev.
   assert (Hl : l = rev r ++ [CR]).
   { rewrite <- (rev_involutive l), E. reflexivity. }
   rewrite Hl. unfold trim. rewrite ltrim_app_blank1 by exact asp_CR.
